@@ -96,6 +96,10 @@ def _union_perm(prop, v):
             return v.get("predicate") in PINNED_MEMOISED
         return (v.get("kind") == "predicate-disagrees" and v.get("twin_warmed") is True
                 and v.get("predicate") in ("origin", "name", "qualname", "isgeneric", "issubscriptedgeneric", "resolve_supertype", "unwrap"))
+    if prop == "C15":
+        # the first build of an annotation holding Union[A, B] was served the routine of an equal union in another member order
+        # (built earlier in the process); after clearing the caches it gets its own order
+        return v.get("kind") == "build-after-cache-clear-differs" and v.get("served_permutation") is True
     if v.get("pos_desc") == "union" and v.get("union_twin") is True and str(v.get("kind", "")).startswith("union-"):
         return True  # the same program holds an equal union with another member order
     return v.get("kind") in ("permutation-served-from-cache",) or (
